@@ -297,6 +297,10 @@ class Check(FormulaCheck):
         v = rnd.choice(list(cells) + [0, 1000, -1000, 2.5])
         op = rnd.choice(['>', '<', '>=', '<=', '=', '<>', ''])
         txt = op + (hx.numlit(abs(v)) if v >= 0 else '-' + hx.numlit(-v))
+        if rnd.random() < 0.2:
+            # the same number, or a tiny / huge one, in exponent notation - with and without a sign in the exponent
+            w = rnd.choice([v, v, 1e-05, -3e-07, 2.5e+16, -1e+17, 1e5, 0.0])
+            txt = op + rnd.choice(['%e', '%E', '%.3e', '%r']) % w
         V = Fr(float(txt[len(op):]))
         pred = {'>': lambda a: Fr(a) > V, '<': lambda a: Fr(a) < V, '>=': lambda a: Fr(a) >= V, '<=': lambda a: Fr(a) <= V,
                 '=': lambda a: Fr(a) == V, '<>': lambda a: Fr(a) != V, '': lambda a: Fr(a) == V}[op]
